@@ -18,11 +18,11 @@ import (
 )
 
 type repairState struct {
-	cands []Clause          // atomic candidate invariants (conjuncts), label "L<ordinal>.<label>.<k>"
-	dead  map[string]bool   // "<loopName>/<label>": dropped for that loop
-	other map[int]*Block    // the recorded block of each ordinal (for its non-invariant clauses)
-	synth map[int]*Block    // synthesized blocks, per ordinal, rebuilt for every run
-	used  map[string]bool   // labels that survived in the last run
+	cands []Clause        // atomic candidate invariants (conjuncts), label "L<ordinal>.<label>.<k>"
+	dead  map[string]bool // "<loopName>/<label>": dropped for that loop
+	other map[int]*Block  // the recorded block of each ordinal (for its non-invariant clauses)
+	synth map[int]*Block  // synthesized blocks, per ordinal, rebuilt for every run
+	used  map[string]bool // labels that survived in the last run
 	total int
 }
 
